@@ -3,6 +3,7 @@ package rules
 import (
 	"fmt"
 	"go/constant"
+	"go/types"
 	"sort"
 	"strings"
 
@@ -19,11 +20,17 @@ func init() {
 func runC12(r *engine.Run) {
 	r.Rule("AGREE-branches", "in GetPath every path from entry to the collection of nodes passes through one of the two marking loops (the parallel one over a branch root's children or the sequential one from the root): for every number of requested keys and every root kind the requested paths are marked before the export is assembled")
 	r.Rule("AGREE-embed", "writer and reader of the embedded shared-prefix child agree: routingNode.Serialize appends child hash, big-endian child weight, value hash, key in that order and DeserializeNode reads offsets [0:32], [32:40], [40:72], [72:] with the same byte order; collectNodes emits and deserializeTrie consumes in the same pre-order (node first, then children by ascending index / the single value)")
+	r.Rule("AGREE-linkback", "whenever markToCollect is called on a position read from a node (a branch's child slot, a shared-prefix node's value) its result is stored back into that same slot: a child that had to be loaded from storage becomes part of the trie that is exported")
+	r.Rule("EXPORT-kind", "collectNodes replaces an unrequested node by a bare hash reference only when it is a branch; shared-prefix and value nodes are exported in full, because the importer overwrites the parent's embedded copy with what the export contains and a later delete needs the sibling's kind and key to merge")
+	r.Rule("AGREE-limits", "the two wire entry points (path export import and block-proof verification) configure the same CBOR decoding limits: a proof or export that one accepts is not rejected by the other for its size")
 	r.Rule("EXH-W", "see C09: markToCollect resolves a collapsed position before interpreting it")
 	r.NotDec = append(r.NotDec, "root/weight equality after mirrored updates (value-level)", "the import-side hash checks (not necessary for honest exports)")
 	agreeBranches(r)
 	agreeEmbed(r)
 	exhWSubset(r, "EXH-W", "markToCollect")
+	linkBack(r)
+	exportKind(r)
+	agreeLimits(r, "AGREE-limits")
 }
 
 func exhWSubset(r *engine.Run, rule string, name string) {
@@ -515,4 +522,149 @@ func agreeCreated(r *engine.Run) {
 	if n < 3 {
 		r.Anchor(rule, fmt.Errorf("unresolved anchor: %d arms of commit send on both channels, 3 confirmed by reading", n))
 	}
+}
+
+// ---- AGREE-linkback --------------------------------------------------------------
+
+func linkBack(r *engine.Run) {
+	const rule = "AGREE-linkback"
+	mark := wfn(r, rule, "markToCollect")
+	if mark == nil {
+		return
+	}
+	n := 0
+	var fns []*ssa.Function
+	for _, f := range funcsOfPkg(r, pkgWMPT) {
+		fns = append(fns, f)
+	}
+	for _, f := range fns {
+		o := ord{}
+		engine.Instrs(f, func(in ssa.Instruction) {
+			c, ok := in.(*ssa.Call)
+			if !ok || c.Call.StaticCallee() != mark {
+				return
+			}
+			pos := c.Call.Args[1]
+			ld, isLoad := pos.(*ssa.UnOp)
+			if !isLoad {
+				return
+			}
+			addrKey := ""
+			switch a := ld.X.(type) {
+			case *ssa.IndexAddr:
+				if fld := engine.FieldOf(a.X); fld != nil && fld.Name() == "Children" {
+					addrKey = engine.ValKey(a)
+				}
+			case *ssa.FieldAddr:
+				if engine.FieldOf(a).Name() == "value" {
+					addrKey = engine.ValKey(a)
+				}
+			}
+			if addrKey == "" {
+				return // the trie root or a parameter: resolved by the caller
+			}
+			n++
+			r.CallSites++
+			var res ssa.Value
+			for _, ref := range engine.Referrers(c) {
+				if ex, ok := ref.(*ssa.Extract); ok && ex.Index == 0 {
+					res = ex
+				}
+			}
+			good := false
+			if res != nil {
+				engine.Instrs(f, func(i2 ssa.Instruction) {
+					if st, ok := i2.(*ssa.Store); ok && st.Val == res && engine.ValKey(st.Addr) == addrKey {
+						good = true
+					}
+				})
+			}
+			r.Check(good, rule, o.next(fn(f)+"|markToCollect"), r.P.Pos(c.Pos()), "result stored back into the slot the position was read from",
+				"the node returned by markToCollect (possibly just loaded from storage) is not stored back into the slot it was read from: the export contains nothing below that slot and the partial trie cannot follow updates of the requested keys")
+		})
+	}
+	if n < 3 {
+		r.Anchor(rule, fmt.Errorf("unresolved anchor: %d slot-reading markToCollect calls, 3 confirmed by reading", n))
+	}
+}
+
+// ---- EXPORT-kind -------------------------------------------------------------------
+
+func exportKind(r *engine.Run) {
+	const rule = "EXPORT-kind"
+	f := wfn(r, rule, "collectNodes")
+	if f == nil {
+		return
+	}
+	n := 0
+	engine.Instrs(f, func(in ssa.Instruction) {
+		al, ok := in.(*ssa.Alloc)
+		if !ok || !isNamed(al.Type(), pkgWMPT, "hashNode") {
+			return
+		}
+		if pt, isPtr := al.Type().(*types.Pointer); !isPtr || namedOf(pt.Elem()) == nil || pt.Elem() != types.Type(namedOf(pt.Elem())) {
+			return
+		}
+		n++
+		// every feasible path to the substitution has `node.(*routingNode)` succeeded
+		facts, okf := engine.FactsOn(f, al.Block())
+		good := false
+		if okf {
+			for _, ft := range facts {
+				if ft.Kind == "bool" && ft.Truth {
+					if ex, ok := ft.A.(*ssa.Extract); ok && ex.Index == 1 {
+						if ta, ok := ex.Tuple.(*ssa.TypeAssert); ok {
+							if nm := namedOf(ta.AssertedType); nm != nil && nm.Obj().Name() == "routingNode" {
+								good = true
+							}
+						}
+					}
+				}
+			}
+		}
+		r.Check(good, rule, fn(f)+"|hash substitution", r.P.Pos(al.Pos()), "only branches are exported as bare hash references",
+			"the export replaces a node by a bare hash reference on a path where it is not known to be a branch: an unrequested shared-prefix/value sibling loses its kind and key in the partial trie, so a delete that folds a two-child branch builds a different node than the full trie (roots diverge)")
+	})
+	if n == 0 {
+		r.Note(rule, fn(f)+"|hash substitution", r.P.Pos(f.Pos()), "collectNodes exports every node in full")
+	}
+}
+
+// ---- AGREE-limits -------------------------------------------------------------------
+
+func decLimits(f *ssa.Function) map[string]string {
+	out := map[string]string{}
+	engine.Instrs(f, func(in ssa.Instruction) {
+		st, ok := in.(*ssa.Store)
+		if !ok {
+			return
+		}
+		fa, ok := st.Addr.(*ssa.FieldAddr)
+		if !ok || !isNamed(fa.X.Type(), "fxamacker/cbor/v2", "DecOptions") {
+			return
+		}
+		if c := constVal(st.Val); c != nil {
+			out[engine.FieldOf(fa).Name()] = c.ExactString()
+		} else {
+			out[engine.FieldOf(fa).Name()] = "?"
+		}
+	})
+	return out
+}
+
+func agreeLimits(r *engine.Run, rule string) {
+	d := wfn(r, rule, "Deserialize")
+	v := wfn(r, rule, "VerifyBlockProof")
+	if d == nil || v == nil {
+		return
+	}
+	a, b := decLimits(d), decLimits(v)
+	same := len(a) == len(b)
+	for k, x := range a {
+		if b[k] != x {
+			same = false
+		}
+	}
+	r.Check(same && len(a) > 0, rule, "wmpt.Deserialize/VerifyBlockProof|DecOptions", r.P.Pos(v.Pos()), fmt.Sprintf("both decode with %v", a),
+		fmt.Sprintf("the export importer decodes with %v but the proof verifier with %v: honest proofs or exports of a deep or wide trie are rejected by one of them", a, b))
 }
